@@ -59,6 +59,10 @@ func (e *Exec) doCallCommon(fr *Frame, ins ssa.Instruction, c *ssa.CallCommon, s
 		recv := e.val(fr, c.Value)
 		key := c.Method.FullName()
 		all := append([]Val{recv}, args...)
+		if recv.S == SAny && !isDefer && !(c.Method.Pkg() != nil && e.allowed(c.Method.Pkg().Path())) {
+			// a method call on a nil interface value panics
+			e.safety(fr, ins, g, Not(Eq(recv.T, "anynil")), "nil-iface")
+		}
 		if ctr := e.P.Spec.Contracts[key]; ctr != nil {
 			names := ctr.Params
 			if len(names) == 0 {
